@@ -30,7 +30,8 @@ def gen_case(rng, focus=None):
     errc = [rng.choice(TEXT_PIECES) for _ in range(rng.randint(0, 2))]
     ins = None
     if has_in:
-        ins = [rng.choice(["h", "i", "é", "~", "~", "$", "!", "xy"]) for _ in range(rng.randint(0, 5))]
+        # "~" = not ready, "$" = EOF; the rest is data, control characters included (they are ordinary input text)
+        ins = [rng.choice(["h", "i", "é", "~", "~", "$", "!", "xy", "\x04", "\x03", "\x00", "\x1a"]) for _ in range(rng.randint(0, 5))]
     rc = rng.choice([0, 0, 0, 3, 1, -15])
     actors = ["main", "out"] + ([] if pty else ["err"]) + (["stdin"] if has_in else []) + (["timer"] if has_t else [])
     envacts = ["wo"] * len(outc) + ["we"] * len(errc) + ["x%d" % rc]
